@@ -219,6 +219,7 @@ class MainStartDistribution(Contract):
     ghosts = {'k': 'int', 'n': 'int', 'x': 'int'}
     slice_from = 'grid_t1'
     slice_count = 7
+    replay = lambda self, o, model, pid: {'driver': 'main', 'scenarios': ['restart']} if pid == 'C11' else None
 
     def slice_setup(self, ex, st):
         from .common import PS_NX, PS_NY, PS_NB, PS_NXY, PS_NXYB
@@ -244,6 +245,8 @@ class MainStartDistribution(Contract):
         for path in (PS_NX, PS_NY, PS_NB, PS_NXY, PS_NXYB):
             st.scal[path] = IntV(I(0), U32)
         st.scal['ghost.size_set'] = IntV(I(0), parse_type_str('int'))
+        st.scal['ghost.h5_loader_called'] = IntV(I(0), parse_type_str('int'))
+        st.scal['ghost.grid_origin'] = IntV(I(0), parse_type_str('int'))
         if 'qmax' in a and 'qmin' in a:
             st.assume(And(a['qmax'].t > a['qmin'].t, a['pmax'].t > a['pmin'].t))
 
@@ -307,7 +310,11 @@ class MainStartDistribution(Contract):
             nfile = State.fresh('h5.grid_size', z3.IntSort())
             st.assume(And(nfile >= 2, nfile <= 65535))
             set_sizes(ex, st, nfile, I(1))
-            return loaded(ex, st, 'heap:PhaseSpace1', True)
+            st.scal['ghost.h5_loader_called'] = IntV(I(1), parse_type_str('int'))
+            ex.logw(('s', 'ghost.h5_loader_called'))
+            r_ = loaded(ex, st, 'heap:PhaseSpace1', True)
+            r_.origin = 2
+            return r_
 
         def from_txt(ex, n, st, objn, argn, this_override=None):
             # makePSFromTXT(fname, ps_size, ...): PhaseSpace::setSize(ps_size, 1) and a phase space of that size
@@ -331,6 +338,9 @@ class MainStartDistribution(Contract):
                 raise ExtractionError('main: grid_t1.reset(...) with something that is not a new PhaseSpace')
             st.env[vid] = ObjRef(v.name, 'std::shared_ptr<vfps::PhaseSpace>', null=z3.BoolVal(False))
             ex.logw(('v', vid))
+            if (d.get('referencedDecl') or {}).get('name') == 'grid_t1':
+                st.scal['ghost.grid_origin'] = IntV(I(1), parse_type_str('int'))        # 1: built here (the default distribution)
+                ex.logw(('s', 'ghost.grid_origin'))
             return VoidV()
 
         def assign_ptr(ex, n, st, objn, argn, this_override=None):
@@ -343,6 +353,9 @@ class MainStartDistribution(Contract):
             if isinstance(v, ObjRef) and vid is not None:
                 st.env[vid] = ObjRef(v.name, 'std::shared_ptr<vfps::PhaseSpace>', null=v.null)
                 ex.logw(('v', vid))
+                if (d.get('referencedDecl') or {}).get('name') == 'grid_t1':
+                    st.scal['ghost.grid_origin'] = IntV(I(getattr(v, 'origin', 0)), parse_type_str('int'))      # 2: what the results-file loader delivered
+                    ex.logw(('s', 'ghost.grid_origin'))
                 return VoidV()
             raise ExtractionError(f'main: assignment to a grid pointer from {v}')
 
@@ -356,8 +369,14 @@ class MainStartDistribution(Contract):
                 nm = f'heap:copy{self.n}'
                 Use.__call__(self, ex, n, st, None, argn, this_override=nm)
                 return ObjRef(nm, 'std::shared_ptr<vfps::PhaseSpace>', null=z3.BoolVal(False))
+        class StartGrid(Use):
+            """new PhaseSpace(...): the start grid built in main itself.  One region for the role 'grid the run starts with' -- on any
+            path at most one such object is alive (a second one replaces a loader result that was null), so the branches can join"""
+            def __call__(self, ex, n, st, objn, argn, this_override=None):
+                Use.__call__(self, ex, n, st, None, argn, this_override='heap:PhaseSpace1')
+                return ObjRef('heap:PhaseSpace1', 'vfps::PhaseSpace', null=z3.BoolVal(False))
         return {'setSize': set_size, 'makePSFromHDF5': from_hdf5, 'makePSFromTXT': from_txt, 'reset': reset, 'operator=': assign_ptr,
-                'ctor:vfps::PhaseSpace': Use(PhaseSpaceCtor12Use(), inst=INST), 'make_shared': MakeSharedCopy(),
+                'ctor:vfps::PhaseSpace': StartGrid(PhaseSpaceCtor12Use(), inst=INST), 'make_shared': MakeSharedCopy(),
                 'isOfFileType': fresh_bool, 'empty': fresh_bool, 'printText': noop, 'operator+': strv, 'operator<<': strv, 'str': strv,
                 'getStartDistStep': lambda ex, n, st, objn, argn, this_override=None: IntV(z3.Int('opt:StartDistStep'), parse_type_str('long')),       # any int64 the user may give
                 'getGridSize': lambda ex, n, st, objn, argn, this_override=None: ex.args0['ps_bins'],
@@ -371,7 +390,15 @@ class MainStartDistribution(Contract):
         r = cx.ret
         if isinstance(r, IntV):
             return []           # early exit with a message (start file refused): nothing further runs
-        return [('grid_has_GridSize_cells', {'C17', 'C09'}, And(nx == cx.a('ps_bins'), ny == cx.a('ps_bins')))]
+        out = [('grid_has_GridSize_cells', {'C17', 'C09'}, And(nx == cx.a('ps_bins'), ny == cx.a('ps_bins')))]
+        # C11, the refusal half: whenever the results-file loader was asked, the run goes on only with what it delivered -- not with
+        # nothing (a failed load: makePSFromHDF5 returns null after its message) and not with some other distribution
+        called = cx.st.scal['ghost.h5_loader_called'].t == 1
+        g = cx.val('grid_t1')
+        failed = g.null if isinstance(g, ObjRef) and g.null is not None else z3.BoolVal(False)
+        out.append(('run_continues_only_with_the_loaded_start_distribution', {'C11'},
+                    Implies(called, And(Not(failed), cx.st.scal['ghost.grid_origin'].t == 2))))
+        return out
 
     def _inv(self, var):
         def inv(cx):
